@@ -125,6 +125,7 @@ func extractC01(c *ctxT) {
 
 	// ---- TryAttestation: requiredPower := types.AttestationVotesPowerThreshold.Mul(totalPower).Quo(sdkmath.NewInt(100)); LT
 	var votesDiv int64 = -1
+	reqExpr := ".unknown"
 	cmp := "other"
 	totalFromStore := false
 	sumsFoundOnly := false
@@ -139,6 +140,7 @@ func extractC01(c *ctxT) {
 						if m := reReq.FindStringSubmatch(r); m != nil {
 							votesDiv, _ = strconv.ParseInt(m[1], 10, 64)
 						}
+						reqExpr = c.qexpr(x.Rhs[0], map[string]string{"totalPower": ".total"}, 0)
 					}
 					if l == "totalPower" && r == "k.GetLastTotalPower(ctx)" {
 						totalFromStore = true
@@ -168,6 +170,11 @@ func extractC01(c *ctxT) {
 			return true
 		})
 	}
+
+	if m := regexp.MustCompile(`^\(\.quo .* \(\.lit (\d+)\)\)$`).FindStringSubmatch(reqExpr); m != nil && votesDiv < 0 {
+		votesDiv, _ = strconv.ParseInt(m[1], 10, 64) // the outermost operation divides by a literal
+	}
+	facts["C01.requiredExpr"] = reqExpr
 
 	// ---- Attest: contiguity guard and tally condition
 	contig, tallyNotObs, tallyNext, tallyCalled := false, false, false, false
@@ -413,11 +420,15 @@ func extractC01(c *ctxT) {
 	sb.WriteString("namespace FxVerif.Gen.C01\n\n")
 	sb.WriteString("inductive Cmp where | lt | lte | other\n  deriving DecidableEq, Repr\n\n")
 	sb.WriteString("inductive UbdRule where | requireExists | refuseIfExists | none\n  deriving DecidableEq, Repr\n\n")
+	sb.WriteString("/-- where a handler recomputes the recorded total power relative to storing the oracle record -/\ninductive RefreshRule where | afterStore | beforeStore | ifPositiveAfterStore | other | none\n  deriving DecidableEq, Repr\n\n")
+	sb.WriteString("/-- integer expressions over the recorded total power and the vote threshold constant -/\ninductive QExpr where\n  | total | threshold | unknown\n  | lit (n : Nat)\n  | mul (a b : QExpr) | quo (a b : QExpr) | add (a b : QExpr) | sub (a b : QExpr)\n  deriving DecidableEq, Repr\n\n")
+	sb.WriteString("/-- value of an expression (`thr` = the threshold constant; `Quo` truncates; amounts are non-negative) -/\ndef QExpr.eval (thr total : Nat) : QExpr → Nat\n  | .total => total\n  | .threshold => thr\n  | .unknown => 0\n  | .lit n => n\n  | .mul a b => a.eval thr total * b.eval thr total\n  | .quo a b => a.eval thr total / b.eval thr total\n  | .add a b => a.eval thr total + b.eval thr total\n  | .sub a b => a.eval thr total - b.eval thr total\n\n")
 	w := func(doc, name, typ, val string) {
 		fmt.Fprintf(&sb, "/-- %s -/\ndef %s : %s := %s\n\n", doc, name, typ, val)
 	}
 	w("types.AttestationVotesPowerThreshold", "votesThreshold", "Nat", leanNat(votes))
 	w("divisor in TryAttestation: requiredPower := threshold.Mul(totalPower).Quo(NewInt(d)), totalPower := GetLastTotalPower", "votesDivisor", "Nat", leanNat(votesDiv))
+	w("TryAttestation: the right-hand side of `requiredPower := ...` (helper functions of x/crosschain/types inlined)", "requiredExpr", "QExpr", reqExpr)
 	w("TryAttestation: `if attestationPower.<cmp>(requiredPower) { continue }`", "tallyCmp", "Cmp", "."+cmp)
 	w("TryAttestation reads the total from the store (GetLastTotalPower)", "tallyTotalFromStore", "Bool", leanBool(totalFromStore))
 	w("TryAttestation skips votes of addresses that are not registered oracles (`if !found { continue }`)", "tallySkipsUnregistered", "Bool", leanBool(sumsFoundOnly))
@@ -437,8 +448,13 @@ func extractC01(c *ctxT) {
 	w("ExecuteClaim has an unconditional top-level `k.DeletePendingExecuteClaim(ctx, eventNonce)`", "execDeletesPending", "Bool", leanBool(execDeletes))
 	w("ExecuteClaim: the look-up precedes the deletion, and the deletion precedes every statement that calls a handler", "execDeletesBeforeHandler", "Bool", leanBool(execDeleteFirst))
 	w("the executeClaim precompile runs ExecuteClaim inside ExecuteNativeAction and returns its error", "execErrorRevertsNativeAction", "Bool", leanBool(execInNative))
-	w("BondedOracle calls SetLastTotalPower", "refreshOnBond", "Bool", leanBool(sites["BondedOracle"]))
-	w("AddDelegate calls SetLastTotalPower", "refreshOnAddDelegate", "Bool", leanBool(sites["AddDelegate"]))
+	bondRule := c.refreshRule(c.findFunc(c01Keeper, "MsgServer", "BondedOracle"))
+	addDelRule := c.refreshRule(c.findFunc(c01Keeper, "MsgServer", "AddDelegate"))
+	facts["C01.refreshRules"] = map[string]string{"BondedOracle": bondRule, "AddDelegate": addDelRule}
+	w("BondedOracle: where SetLastTotalPower is called relative to SetOracle", "bondRefreshRule", "RefreshRule", "."+bondRule)
+	w("AddDelegate: where SetLastTotalPower is called relative to SetOracle", "addDelegateRefreshRule", "RefreshRule", "."+addDelRule)
+	w("BondedOracle calls SetLastTotalPower unconditionally after storing the oracle", "refreshOnBond", "Bool", leanBool(sites["BondedOracle"] && bondRule == "afterStore"))
+	w("AddDelegate calls SetLastTotalPower unconditionally after storing the oracle", "refreshOnAddDelegate", "Bool", leanBool(sites["AddDelegate"] && addDelRule == "afterStore"))
 	w("slashing calls SetLastTotalPower when any oracle was slashed", "refreshOnSlash", "Bool", leanBool(sites["slashing"] && slashingCond))
 	w("AddOracleSetRequest calls SetLastTotalPower", "refreshOnOracleSetRequest", "Bool", leanBool(sites["AddOracleSetRequest"]))
 	w("UpdateProposalOracles / UnbondedOracleFromProposal call SetLastTotalPower (they do not on the unchanged tree)", "refreshOnGovUpdate", "Bool", leanBool(govRefresh))
@@ -473,3 +489,135 @@ func extractC01(c *ctxT) {
 var reLineComment = regexp.MustCompile(`(?m)//.*$`)
 
 func stripComments(s string) string { return reLineComment.ReplaceAllString(s, "") }
+
+
+// ---- the quorum formula as an expression tree (regenerated; the model evaluates it) ----------------------------------
+
+// qexpr translates a Go expression over sdkmath.Int into the Lean `QExpr` term: the threshold constant, the total, integer
+// literals, Mul / Quo / Add / Sub (and their Raw forms), and calls of single-`return` helper functions of x/crosschain/types,
+// which are inlined with their parameters bound (depth-limited).  Anything else becomes `.unknown` (evaluates to 0).
+func (c *ctxT) qexpr(e ast.Expr, env map[string]string, depth int) string {
+	if depth > 4 {
+		return ".unknown"
+	}
+	switch x := e.(type) {
+	case *ast.ParenExpr:
+		return c.qexpr(x.X, env, depth)
+	case *ast.Ident:
+		if v, ok := env[x.Name]; ok {
+			return v
+		}
+		if x.Name == "AttestationVotesPowerThreshold" {
+			return ".threshold"
+		}
+	case *ast.SelectorExpr:
+		if x.Sel.Name == "AttestationVotesPowerThreshold" {
+			return ".threshold"
+		}
+	case *ast.BasicLit:
+		if n := c.natOf(x); n >= 0 {
+			return fmt.Sprintf("(.lit %d)", n)
+		}
+	case *ast.CallExpr:
+		if n := c.natOf(x); n >= 0 { // sdkmath.NewInt(<literal>)
+			return fmt.Sprintf("(.lit %d)", n)
+		}
+		if se, ok := x.Fun.(*ast.SelectorExpr); ok && len(x.Args) == 1 {
+			op := map[string]string{"Mul": "mul", "MulRaw": "mul", "Quo": "quo", "QuoRaw": "quo", "Add": "add", "AddRaw": "add", "Sub": "sub", "SubRaw": "sub"}[se.Sel.Name]
+			if op != "" {
+				// a method of an Int value (not a package-level function such as types.F(x))
+				if id, isPkg := se.X.(*ast.Ident); !(isPkg && (id.Name == "types" || id.Name == "sdkmath" || id.Name == "math")) {
+					return fmt.Sprintf("(.%s %s %s)", op, c.qexpr(se.X, env, depth), c.qexpr(x.Args[0], env, depth))
+				}
+			}
+		}
+		// helper function of x/crosschain/types: `func F(a sdkmath.Int, ...) sdkmath.Int { return <expr> }`
+		name := ""
+		switch f := x.Fun.(type) {
+		case *ast.Ident:
+			name = f.Name
+		case *ast.SelectorExpr:
+			if id, ok := f.X.(*ast.Ident); ok && id.Name == "types" {
+				name = f.Sel.Name
+			}
+		}
+		if name != "" {
+			for _, rel := range []string{c01Types, c01Keeper} {
+				fd := c.findFunc(rel, "", name)
+				if fd == nil || fd.Body == nil || len(fd.Body.List) != 1 || fd.Type.Params == nil {
+					continue
+				}
+				rs, ok := fd.Body.List[0].(*ast.ReturnStmt)
+				if !ok || len(rs.Results) != 1 {
+					continue
+				}
+				var params []string
+				for _, f := range fd.Type.Params.List {
+					for _, n := range f.Names {
+						params = append(params, n.Name)
+					}
+				}
+				if len(params) != len(x.Args) {
+					continue
+				}
+				env2 := map[string]string{}
+				for i, pn := range params {
+					env2[pn] = c.qexpr(x.Args[i], env, depth+1)
+				}
+				return c.qexpr(rs.Results[0], env2, depth+1)
+			}
+		}
+	}
+	return ".unknown"
+}
+
+// refreshRule classifies where a message-server method recomputes the recorded total power relative to storing the oracle:
+//   afterStore           : unconditional top-level `s.SetLastTotalPower(ctx)` after the top-level `s.SetOracle(ctx, oracle)`
+//   beforeStore          : unconditional top-level call, but before the oracle record is stored
+//   ifPositiveAfterStore : inside a top-level `if delegateCoin.IsPositive() { ... }` after the store
+//   other                : some other guarded / nested call;   none: no call
+func (c *ctxT) refreshRule(fd *ast.FuncDecl) string {
+	if fd == nil || fd.Body == nil {
+		return "none"
+	}
+	storeIdx, rule := -1, "none"
+	for i, st := range fd.Body.List {
+		switch x := st.(type) {
+		case *ast.ExprStmt:
+			switch c.src(x.X) {
+			case "s.SetOracle(ctx, oracle)":
+				if storeIdx < 0 {
+					storeIdx = i
+				}
+			case "s.SetLastTotalPower(ctx)":
+				if rule == "none" {
+					if storeIdx >= 0 {
+						rule = "afterStore"
+					} else {
+						rule = "beforeStore"
+					}
+				}
+			}
+		case *ast.IfStmt:
+			if callsMethod(x, "SetLastTotalPower") && rule == "none" {
+				rule = "other"
+				if x.Init == nil && x.Else == nil && c.src(x.Cond) == "delegateCoin.IsPositive()" && storeIdx >= 0 && len(x.Body.List) >= 1 {
+					all := true
+					for _, b := range x.Body.List {
+						if es, ok := b.(*ast.ExprStmt); !ok || c.src(es.X) != "s.SetLastTotalPower(ctx)" {
+							all = false
+						}
+					}
+					if all {
+						rule = "ifPositiveAfterStore"
+					}
+				}
+			}
+		default:
+			if callsMethod(st, "SetLastTotalPower") && rule == "none" {
+				rule = "other"
+			}
+		}
+	}
+	return rule
+}
